@@ -190,7 +190,7 @@ impl<Hd: TokP, El: TokP> UninitEngine<Hd, El> {
                 let addr = a.heap_ptr() as usize;
                 let init: Arc<El> = lib!(unsafe { a.assume_init() });
                 if init.heap_ptr() as usize != addr || Arc::count(&init) != count {
-                    viol::report(P, "I.assume-init", format!("{}: assume_init changed the allocation ({:#x} -> {:#x}) or the count ({} -> {})", cx.what, addr, init.heap_ptr() as usize, count, Arc::count(&init)));
+                    viol::report(&["C15", "C04"], "I.assume-init", format!("{}: assume_init changed the allocation ({:#x} -> {:#x}) or the count ({} -> {})", cx.what, addr, init.heap_ptr() as usize, count, Arc::count(&init)));
                 }
                 let p = init.peekp();
                 if !p.ok || Some(&p.id) != ids.first() {
@@ -400,7 +400,7 @@ impl<Hd: TokP, El: TokP> UninitEngine<Hd, El> {
                 let addr = a.heap_ptr() as usize;
                 let init: Arc<[El]> = lib!(unsafe { a.assume_init() });
                 if init.heap_ptr() as usize != addr || Arc::count(&init) != count || init.len() != len {
-                    viol::report(P, "I.assume-init", format!("{}: assume_init changed the allocation, the count ({} -> {}) or the length", cx.what, count, Arc::count(&init)));
+                    viol::report(&["C15", "C04"], "I.assume-init", format!("{}: assume_init changed the allocation, the count ({} -> {}) or the length", cx.what, count, Arc::count(&init)));
                 }
                 for (i, e) in init.iter().enumerate() {
                     let p = e.peekp();
